@@ -344,6 +344,31 @@ class SymBool:
 
 # ---------------------------------------------------------------------------
 
+_COMMUTATIVE = None
+
+
+def _stable_hash(t, memo=None):
+    """Opt-in (VERIF_STABLE_HASH=1): hash of a term modulo the order of the arguments of commutative operators.
+    z3.simplify sorts the arguments of +, *, and, or, = by AST id, which differs between re-executions of the same path
+    (a + b vs b + a); the structural hash then reports a spurious EngineNondeterminism."""
+    global _COMMUTATIVE
+    if _COMMUTATIVE is None:
+        _COMMUTATIVE = {z3.Z3_OP_ADD, z3.Z3_OP_MUL, z3.Z3_OP_AND, z3.Z3_OP_OR, z3.Z3_OP_EQ, z3.Z3_OP_DISTINCT, z3.Z3_OP_IFF}
+    if memo is None: memo = {}
+    k = t.get_id()
+    r = memo.get(k)
+    if r is not None: return r
+    if z3.is_app(t) and t.num_args() > 0:
+        d = t.decl()
+        hs = [_stable_hash(c, memo) for c in t.children()]
+        if d.kind() in _COMMUTATIVE: hs.sort()
+        r = hash((d.kind(), d.name(), tuple(hs)))
+    else:
+        r = hash(t.sexpr())
+    memo[k] = r
+    return r
+
+
 class Ctx:
     """One path of one exploration.  Holds the solver with the path condition."""
 
@@ -513,7 +538,7 @@ class Ctx:
         if memo is not None:
             return memo[1]
         pos = len(self.trace)
-        h = cond.hash()
+        h = _stable_hash(cond) if os.environ.get('VERIF_STABLE_HASH') == '1' else cond.hash()
         if pos < len(self.prefix):
             ph, outcome = self.prefix[pos]
             if ph != h:
@@ -663,10 +688,13 @@ def model_value(model, term_or_sym, default=0.0):
     t = lift(term_or_sym) if not z3.is_expr(term_or_sym) else term_or_sym
     v = model.eval(t, model_completion=True)
     c = _const_value(v)
-    if c is not None:
-        return float(c)
-    if z3.is_algebraic_value(v):
-        return float(v.approx(20).as_fraction())
+    try:
+        if c is not None:
+            return float(c)
+        if z3.is_algebraic_value(v):
+            return float(v.approx(20).as_fraction())
+    except OverflowError:      # model value beyond the float range: clamp (only used for native cross-checks/replays)
+        return math.copysign(1e300, c if c is not None else 1)
     return default
 
 
